@@ -123,7 +123,7 @@ class JaxConnector(BuiltinConnector):
 
         return embedded_matrix.at[composite_index].set(self.np.array(updates))
 
-    def polar(self, a, side):
+    def polar(self, a, side="right"):
         # NOTE: The default QDWH algorithm does not support left polar decomposition
         # in `jax.scipy.linalg.polar`, so we have to switch to SVD.
         return self._scipy.linalg.polar(a, side, method="svd")
